@@ -291,7 +291,7 @@ def _at(ch: Any, text: str, label: str) -> int:
 
 def damage(ch: Any, text: str) -> tuple[Any, str]:
     """One drawn edit of the classes in the module docstring. Returns (damaged text -- or bytes --, what was done)."""
-    how = ch.weighted([("char", 5), ("number", 5), ("nest", 4), ("truncate", 2), ("delete", 2), ("double", 2), ("long", 1), ("edge", 1), ("bytes", 1), ("case", 1), ("separator", 2)], "dmg.how")
+    how = ch.weighted([("char", 5), ("number", 5), ("nest", 4), ("truncate", 2), ("delete", 2), ("double", 2), ("long", 1), ("edge", 1), ("bytes", 1), ("case", 1), ("separator", 2), ("sign", 2)], "dmg.how")
     if how == "char":
         c = ch.pick(HOSTILE_CHARS, "dmg.char")
         i = _at(ch, text, "dmg.at")
@@ -306,6 +306,14 @@ def damage(ch: Any, text: str) -> tuple[Any, str]:
         runs.sort(key=lambda m: (m.end() - m.start() > 10, m.start()))
         m = runs[ch.draw(min(len(runs), 6), "dmg.run")]
         return text[: m.start()] + new + text[m.end():], f"number:{new[:12]!r}"
+    if how == "sign":
+        # what int() / Decimal() read beside digits, in front of a number or of the whole text -- keeping the length
+        # (a count of bits or words that still adds up) or not
+        mark = ch.pick(["-", "+", " ", "_", "0b", "0x", "0o", "\t", "--", "+-", "−", "＋"], "dmg.sign")
+        runs = list(re.finditer(r"[0-9]+", text))
+        at = runs[ch.draw(len(runs), "dmg.run")].start() if runs and ch.draw(2, "dmg.sign.where") else 0
+        keep = bool(ch.draw(2, "dmg.sign.keep-length"))
+        return text[:at] + mark + text[at + (len(mark) if keep else 0):], f"sign:{mark!r}"
     if how == "nest":
         left, right = ch.pick(NEST_PAIRS, "dmg.pair")
         depth = min(ch.pick(DEPTHS, "dmg.depth"), MAX_TEXT // (len(left) + len(right)))
